@@ -89,7 +89,6 @@ func verif_C06_data() {
 	verifAssert(len(got) <= N, "C06.backend-never-reads-more-than-N")
 	if m <= N {
 		verifReach("C06.fits")
-		verifKnown("KF-C06-exact-limit", m == N)
 		verifAssert(rerr == io.EOF, "C06.fitting-message-complete")
 		verifAssert(bytes.Equal(got, body), "C06.fitting-message-intact")
 		verifAssert(final.code == 250, "C06.fitting-message-accepted")
